@@ -30,7 +30,7 @@ ANCHORS = []
 WORKERS = {"quick": 12, "thorough": 16}
 WATCHDOG = {"quick": 1200, "thorough": 3400}
 REQUIRED = {"pair:A-has-resonance-B-lacks": 5, "pair:A-cartesian-B-not": 3, "pair:crossing-reader-classes": 5, "hash-seeds>=2": 1, "exact-reproducibility-run": 2,
-            "history-length>=3": 2, "file-converted-again-after-another": 2, "same-bare-resonance-name-different-sub-lines": 2, "fresh-single-runs": 10, **{f"entry:{e}": 3 for e in ENTRIES}, "across-hash-seeds-compared": 3, "all-ordered-file-pairs": 1}
+            "history-length>=3": 2, "failed-cartesian-read-then-polar-file": 5, "file-converted-again-after-another": 2, "same-bare-resonance-name-different-sub-lines": 2, "fresh-single-runs": 10, **{f"entry:{e}": 3 for e in ENTRIES}, "across-hash-seeds-compared": 3, "all-ordered-file-pairs": 1}
 EXHAUSTIVE_NOTE = "all 36 ordered pairs of pool files are run in every tier (entry points rotated over the 25 ordered entry pairs); all ordered triples of 3 files in thorough"
 ASSUMPTIONS = ["inside the fresh interpreters the pure name lookup is memoised per (name, particle-table size); the library's one-time loading of the special particles happens inside each history",
                "the parent cannot instrument the child interpreters with sys.monitoring: anchors are not traced for this property (results are observed at the process boundary)"]
@@ -68,11 +68,17 @@ def resonance_names(model):
     return {r.name for ln in model["lines"] for r in A.resonances(ln["node"])}
 
 
+POISON = N_POOL     # index of the pool file that cannot be read to the end (cartesian option on, unknown resonance further down)
+
+
 def write_pool(workdir):
     models = pool_models()
     for i, m in enumerate(models):
         with open(os.path.join(workdir, f"pool{i}.txt"), "w", encoding="utf-8") as f:
             f.write(A.render(m, random.Random(i), style={"crlf": False, "indent": False, "comments": i % 2 == 0, "blank": True}))
+    with open(os.path.join(workdir, f"pool{POISON}.txt"), "w", encoding="utf-8") as f:
+        f.write(A.POISON_TEXT)
+    models.append({"event": ["D0", "K-", "pi+", "pi+", "pi-"], "lines": [], "params": [], "consts": [], "cartesian": 1, "extras": [], "unreadable": True})
     return models
 
 
@@ -185,6 +191,8 @@ class Runner:
             ctx.hit("history-length>=3")
         if len(hist) == 3 and hist[0] == hist[2] and hist[0][0] != hist[1][0]:
             ctx.hit("file-converted-again-after-another")
+        if hist[0][0] == POISON and len(hist) >= 2:
+            ctx.hit("failed-cartesian-read-then-polar-file")
         dn = [f for f, _ in hist if f in (0, 5)]
         if len(set(dn)) == 2:
             ctx.hit("same-bare-resonance-name-different-sub-lines")
@@ -203,7 +211,7 @@ class Runner:
             if "raised" in res or "raised" in ref:
                 if res.get("raised") != ref.get("raised"):
                     ctx.violate("history:raises-differently:" + e, f"step {i} {(f, e)}: in history {res.get('raised')!r}, fresh {ref.get('raised')!r}", {**wit, "step": i})
-                elif "raised" in ref:
+                elif "raised" in ref and f != POISON:
                     ctx.violate("conversion-raises:" + e, f"pool file {f} entry {e}: {ref['raised']}\n{ref.get('traceback', '')}", {**wit, "step": i})
                 continue
             a, b = canon(res), canon(ref)
@@ -257,6 +265,10 @@ def run(ctx):
         for i, (fa, fb) in enumerate([(0, 5), (5, 0), (1, 3), (2, 4)] if ctx.quick else [(a, b) for a in range(N_POOL) for b in range(N_POOL) if a != b][::3]):
             e = ["cpp", "py", "read", "read_cpp", "read_py"][i % 5] if not ctx.quick else ["cpp", "py"][i % 2]
             jobs.append(([[fa, e], [fb, e], [fa, e]], 0, "A-B-A"))
+        # a read that fails half-way first (same entry point, or the base reader before a converter), then ordinary polar files
+        for i, e in enumerate(ENTRIES):
+            jobs.append(([[POISON, e], [[0, 1, 5][i % 3], e]], 0, "failed-read-then-polar-file"))
+        jobs.append(([[POISON, "read"], [0, "cpp"], [1, "py"]], 0, "failed-read-then-polar-file"))
         for e in (["py", "cpp"] if ctx.quick else ENTRIES):
             jobs.append(([[3, e], [1, e]], 0, "spline-then-no-constants"))      # file 3 has spline constants, file 1 has no constant line at all
         if not ctx.quick:
